@@ -54,7 +54,7 @@ class ValuesOfCorrectTypeChecker(ValidationVisitor):
         else:
             try:
                 named_type.parse_literal(node)
-            except ScalarParsingError as err:
+            except (ScalarParsingError, AttributeError) as err:
                 is_custom = named_type not in SPECIFIED_SCALAR_TYPES
                 extra = str(err) if is_custom else None
                 # Preserve message for custom scalar types.
